@@ -299,6 +299,9 @@ def do_build(args):
             'keep_names_from_file': args.keep_names_from_file}
     elif getattr(args, 'lua_minify', False):
         lua_writer_cls = lua.LuaMinifyTokenWriter
+        lua_writer_args = {
+            'keep_all_names': args.keep_all_names,
+            'keep_names_from_file': args.keep_names_from_file}
     file.to_file(
         result, filename=args.filename,
         lua_writer_cls=lua_writer_cls,
